@@ -305,6 +305,10 @@ func (r *Resolver) Resolve(ctx context.Context, name string) (ResolveResult, err
 			}
 		}
 	}
+	// An IPv6 literal without a port, e.g. [2001:db8::1] as found in URIs.
+	if n := len(name); n > 2 && name[0] == '[' && name[n-1] == ']' {
+		name = name[1 : n-1]
+	}
 	if name == "localhost" {
 		result.Address = []net.IP{
 			net.IP{127, 0, 0, 1},
